@@ -268,6 +268,7 @@ func (w *Worker) run(s *State) {
 		}
 	}()
 	maxSteps := int64(20_000_000)
+	s.curWorker = w
 	for !s.done {
 		if len(s.pending) == 0 {
 			s.made = s.made[:0]
